@@ -919,6 +919,9 @@ func (fc *FuncCtx) callSiteClauses(st *State, env *Env, cshort string, ord int, 
 			if label == "" {
 				label = fmt.Sprint(i + 1)
 			}
+			if !v.clauseSelected(label) {
+				continue
+			}
 			// known-finding witnesses of a call-site clause are evaluated in the environment of the call (callee parameter
 			// names, caller variables) over a snapshot of the state at the call
 			we := *env
